@@ -416,7 +416,7 @@ class ColumnMapper:
 
     @staticmethod
     def _value_handler(value_str, x):
-        if x == "n/a":
+        if x == "n/a" or x == "":
             return "n/a"
 
         return value_str.replace("#", str(x))
